@@ -187,9 +187,10 @@ def otherAttrsIn (d : Docs) (f : Fmt) (kv : KV) : String :=
 def memberIn (f : Fmt) (kv : KV) (name : String) : Bool :=
   has kv (groupKey f [name]) || has kv (arrayKey f [name])
 
-/-- `root.keys()`: first path components that are members in format `f` -/
+/-- `root.keys()`: first path components that are members in format `f` (with repetitions; only its
+emptiness is used) -/
 def members (f : Fmt) (kv : KV) : List String :=
-  (kv.filterMap (fun e => e.1.path.head?)).filter (fun n => memberIn f kv n) |>.eraseDups
+  (kv.filterMap (fun e => e.1.path.head?)).filter (fun n => memberIn f kv n)
 
 /-! ## the graph being written, as documents -/
 
